@@ -143,7 +143,7 @@ func lrInputs(g *gast.Grammar, r *rand.Rand, n int) [][]byte {
 		})
 	}
 	if len(ops) > 0 {
-		for _, n := range []int{20, 90} {
+		for _, n := range []int{20, 200} {
 			var sb strings.Builder
 			sb.WriteString("1")
 			for i := 0; i < n; i++ {
@@ -165,7 +165,7 @@ func C08(c *Ctx) {
 		"distinct_nontrivial = distinct (grammar, input) with >=2 growth steps in the model")
 	c.Assume("the cycle is always entered through its smallest-named rule (the leader pigeon selects)")
 	rng := rand.New(rand.NewSource(c.Seed*613 + 8))
-	n := c.N(60, 800)
+	n := c.N(200, 2000)
 	var gs []*gast.Grammar
 	for i := 0; i < n; i++ {
 		gs = append(gs, genLR(rng, i%2 == 1))
@@ -179,7 +179,7 @@ func C08(c *Ctx) {
 		Variants: [][]string{{"-support-left-recursion"}, {"-support-left-recursion", "-optimize-parser"}},
 		Cases: func(gi int, g *gast.Grammar) []*mon.Case {
 			var cs []*mon.Case
-			ins := lrInputs(g, rng, c.N(50, 160))
+			ins := lrInputs(g, rng, c.N(70, 200))
 			ins = append(ins, c.inputsFor(g, rng, 0, c.N(60, 300), false)...)
 			seen := map[string]bool{}
 			var uniq [][]byte
